@@ -82,7 +82,7 @@ def native(case, profiles=("dev", "release")):
     os.makedirs(os.path.join(CACHE, "mcases"), exist_ok=True)
     path = os.path.join(CACHE, "mcases", "case-%d-%d.json" % (os.getpid(), random.randrange(1 << 30)))
     with open(path, "w") as fh:
-        json.dump(case, fh)
+        json.dump(case, fh, allow_nan=False)
     try:
         for prof in profiles:
             exe = build_mreplay(prof)
@@ -95,7 +95,10 @@ def native(case, profiles=("dev", "release")):
             try:
                 out[prof] = json.loads(line)
             except Exception:
-                out[prof] = {"panic": True, "rc": p.returncode, "stderr": p.stderr.strip()[-400:]}
+                if "parse case" in p.stderr or "read case" in p.stderr:
+                    out[prof] = {"error": "replay harness could not read the case", "stderr": p.stderr.strip()[-300:]}
+                else:
+                    out[prof] = {"panic": True, "rc": p.returncode, "stderr": p.stderr.strip()[-400:]}
     finally:
         try:
             os.remove(path)
